@@ -150,3 +150,8 @@ def run(ctx):
                          "statement, the two-statement ones sampled in quick), the same with syntax-laden literals, and concatenations (repeated / empty blocks, orders); each parsed, "
                          "regenerated, re-lexed by the harness and reparsed; regenerated texts checked against the language by ProfileTrace; distinct = token sequences")
     ctx.exhaustive = not q
+
+    # the command line face of parsing / regenerating profiles: c2profile-dump (CliTools.tla)
+    from vt.checks import xcli
+
+    xcli.c2profile_cli_part(ctx)
